@@ -18,7 +18,7 @@ sys.path.insert(0, os.path.dirname(os.path.abspath(__file__)))
 import vlib
 from vlib import Undecided, VERIF, BUILD
 
-CFG = json.load(open(os.path.join(VERIF, 'props_cfg.json')))
+CFG = {os.path.basename(p)[:-5]: json.load(open(p)) for p in glob.glob(os.path.join(VERIF, 'props', 'C*.json'))}
 
 
 def units_for(prop):
